@@ -344,6 +344,31 @@ def _call_builtin(I, st, f, name, args, kw, frame, node, where):
             st.seqs[oid] = (Star(tag),)
             return [(st, Obj(oid))]
         return [(st, IterV([Star(tag)], name))]
+    if name.startswith('const:') and name.endswith('.match'):
+        # compiled module-level regex: the match object (or None) is identified by regex and arguments
+        rname = name[6:-6].split('.')[-1]
+        tag = 'M:%s(%s)' % (rname, ','.join(_k(a) for a in args))
+        st.ev('regex-match', rname, tuple(args), frame.qual())
+        return [(st, I.maybe(('nomatch', tag), Opaque(tag, set().union(*[deps_of(a) for a in args]) if args else ())))]
+    if f.recv is None and '.' in name and name.split('.')[0].startswith('M:') or name.startswith('M:'):
+        base, _, meth = name.rpartition('.')
+        if meth == 'group' and args:
+            gtag = '%s.g%s' % (base, _k(args[0]))
+            guards = regex_guards(I, base[2:].split('(')[0])
+            from .containers import const_index as _ci
+            val = SStr(gtag, {base}, nonempty=bool(guards and guards[2].get(_ci(args[0]))))
+            from .containers import const_index
+            gi = const_index(args[0])
+            if guards is not None and gi is not None and gi in guards[0]:
+                g = guards[0][gi]
+                if g == ():
+                    return [(st, val)]          # the group takes part in every match
+                return [(st, I.maybe(('nogroup', base, g), val))]
+            return [(st, I.maybe(('nogroup', gtag), val))]
+        if meth in ('start', 'end'):
+            idx = _k(args[0]) if args else ''
+            v = I.symbol('%s.%s(%s)' % (base, meth, idx), NONNEG, kind='matchpos', base=base, which=meth, group=idx)
+            return [(st, Num(v.p, True))]
     if name.startswith('const:') and name.endswith('.sub') and len(args) >= 2:
         # compiled module-level regex: substitution result is a string derived from the subject
         src = args[1]
@@ -525,3 +550,21 @@ def format_string(fmt, args, kw):
     if len(r.parts) == 1 and isinstance(r.parts[0], str):
         return Str(r.parts[0])
     return r
+
+
+def regex_guards(I, rname):
+    """capture-group participation structure of a module-level compiled regex (from its folded pattern)"""
+    cache = I.__dict__.setdefault('_regex_guards', {})
+    if rname in cache:
+        return cache[rname]
+    res = None
+    for (mod, name), node in I.m.consts.items():
+        if name == rname and isinstance(node, ast.Call) and node.args:
+            try:
+                pat = I.m.fold(mod, node.args[0])
+            except (KeyError, TypeError):
+                continue
+            from . import rx
+            res = rx.group_guards(pat) + (rx.group_nonempty(pat),)
+    cache[rname] = res
+    return res
